@@ -83,13 +83,31 @@ def run(ck):
         single = any(c[1] == 'strncasecmp' and c[2][0] == 'start' for c in p.calls()) or any(e[0] == 'cond' and e[1].startswith('((end - start)') for e in p.events)
         cmps = [c for c in p.calls('strncasecmp')]
         def label_source(c):
+            """(pointer to the label in the input that is being compared, its length expression or None)"""
             i = p.events.index(c)
             comp = [a for a in c[2][:2] if not a.startswith('"') and 'reserved[' not in a and 'example[' not in a]
-            if comp and comp[0] not in ('label', 'start') and not any(e[0] == 'call' and e[1] == 'memcpy' and e[2][0] == comp[0] for e in p.events[:i]):
-                raise AnalysisBroken(f'{site}: the compared string {comp[0]} is not a label copied by memcpy in this function (a different copy idiom): R9.2 / R9.3 cannot trace which label it is; re-confirm')
-            for e in reversed(p.events[:i]):
-                if e[0] == 'call' and e[1] == 'memcpy' and e[2][0] == 'label': return e[2][1], e[2][2]
-            return None, None
+            if not comp: return None, None
+            x = comp[0]
+            cp = [e for e in p.events[:i] if e[0] == 'call' and e[1] == 'memcpy' and e[2][0] == x]
+            if cp: return cp[-1][2][1], cp[-1][2][2]                     # a NUL-terminated copy of the label
+            if x == 'start' or x in P_last or re.fullmatch(r"\w+@L\d+'*|\(strchr#\d+'* \+ 1\)", x): return x, None      # compared in place
+            raise AnalysisBroken(f'{site}: the compared string {x} is neither a memcpy copy of a label nor a pointer into the input: R9.2 / R9.3 cannot trace which label it is; re-confirm')
+        def whole_label(c, tbl_lens):
+            """does this comparison match only whole labels?  -> None if yes, else the reason"""
+            x, ln = label_source(c)
+            n = c[2][2]
+            copied = ln is not None
+            if re.fullmatch(r"\w+\[.+\]\.length", n) or (n.isdigit() and c[2][0].startswith('"') and int(n) == len(c[2][0]) - 2 + 1):
+                if copied: return None                                   # NUL-terminated copy, entry length incl. NUL
+                if x == 'start' and single: return None                  # the whole (single-label) string, NUL at its end
+                if any(e[0] == 'set' and e[1] == 'len' and e[2] == f'(end - {x})' for e in p.events): return None      # last label, ends at the terminator
+                return f'compares {n} bytes in place at {x}, which is not known to be followed by the terminator'
+            # n is the label's own length: an entry longer than the label matches by prefix unless the lengths are pinned
+            A = [k for k in range(1, 65) if admits(len_atoms(p, x if not copied else x), k)] if (copied or True) else []
+            if n.isdigit(): A = [int(n)]
+            bad = sorted({k for k in A for L in tbl_lens if k < L})
+            if bad: return f'compares only the label\'s own {n} byte(s): a label of length {bad} that is a proper prefix of a table entry matches'
+            return None
         res_cmp = [c for c in cmps if any('reserved[' in a for a in c[2])]
         if rv == '0':
             n_no += 1
@@ -114,18 +132,23 @@ def run(ck):
             hit = [c for c in cmps if p.passed(c[3], False)]
             if not hit: bad2.setdefault('YES without a matching comparison', p.text()[-4:]); continue
             h = hit[-1]; a = h[2]
+            tl = [len(w) for w in (RESERVED if any('reserved[' in x for x in a) else EXAMPLE if any('example[' in x for x in a) else {'example'})]
+            wl = whole_label(h, tl)
+            if wl: bad2.setdefault(wl, None)
+            for ex_ in [c for c in cmps if '"example"' in c[2] and p.passed(c[3], False)]:
+                wl = whole_label(ex_, [7])
+                if wl: bad2.setdefault(wl, None)
             if any('reserved[' in x for x in a):
                 src = 'start' if a[0] == 'start' else label_source(h)[0]
                 if not (src == 'start' and single) and src not in P_last: bad2.setdefault(f'reserved[] compared with a label copied from {src}, not the last label', None)
-                if not re.fullmatch(r"reserved\[.+\]\.length", a[2]): bad2.setdefault(f'reserved[] compared over {a[2]} bytes', None)
+                pass
             elif any('example[' in x for x in a):
                 src, ln = label_source(h)
                 if src not in P_last: bad2.setdefault(f'example[] compared with a label copied from {src}', None)
                 if not any(admits(len_atoms(p, P), 3) and not admits(len_atoms(p, P), 4) and not admits(len_atoms(p, P), 2) for P in P_last): bad2.setdefault('example[] compared although the last label is not known to be 3 bytes', None)
                 ex = [c for c in cmps if '"example"' in c[2] and p.passed(c[3], False)]
                 q = label_source(ex[0])[0] if ex else None
-                whole = ex and (ex[0][2][2] == '8' or (ex[0][2][2] == '7' and q and admits(len_atoms(p, q), 7) and not admits(len_atoms(p, q), 6) and not admits(len_atoms(p, q), 8)))
-                if not whole: bad2.setdefault('com/net/org accepted without a whole-label "example" match before it (n = 8, or n = 7 on a label known to be 7 bytes)', None)
+                if not ex: bad2.setdefault('com/net/org accepted without an "example" match on the label before it', None)
                 else:
                     if not any(P == f'({s} + 1)' and (s, (q, "'.'")) in {(c[3], c[2]) for c in p.calls('strchr')} for P in P_last for s in [P[1:-5]]):
                         bad2.setdefault(f'"example" is read from {q}, which is not the label ending at the last dot', None)
